@@ -537,6 +537,13 @@ func ruleC16E14(r *Run) {
 		name := fnName(fn)
 		k := 0
 		connField := func(ch ssa.Value) string {
+			for {
+				ct, isCT := ch.(*ssa.ChangeType) // chan T handed over as chan<- T
+				if !isCT {
+					break
+				}
+				ch = ct.X
+			}
 			if ld, ok := canonVal(ch).(*ssa.UnOp); ok && ld.Op == token.MUL {
 				if fk := fieldKeyOfAddr(ld.X); strings.HasPrefix(fk, "/iscp.Conn.") {
 					return fk
@@ -566,6 +573,26 @@ func ruleC16E14(r *Run) {
 						k++
 						n++
 						r.Check(fmt.Sprintf("%s send#%d to %s does not block", name, k, fk), !x.Blocking, posOf(p, x), name, "the select that feeds a connection-wide queue has no default branch: when the application does not drain the queue the dispatcher stops routing acks and replies to every other caller (waiting for the context is still waiting)")
+					}
+				}
+			}
+			// the queue handed to a small helper that performs the send (trySend(ch, v)): judged by the helper's sends
+			// on that parameter
+			if c, isCall := ins.(*ssa.Call); isCall {
+				if cal := c.Call.StaticCallee(); cal != nil && p.Analysed(cal) {
+					for i, a := range c.Call.Args {
+						fk := connField(a)
+						if fk == "" {
+							continue
+						}
+						if _, isCh := a.Type().Underlying().(*types.Chan); !isCh {
+							continue
+						}
+						for _, ps := range paramSends(cal, i, 0) {
+							k++
+							n++
+							r.Check(fmt.Sprintf("%s send#%d to %s does not block", name, k, fk), !ps.blocking, posOf(p, c), name, "the helper the connection-wide queue is handed to sends on it with a blocking operation ("+fnName(cal)+"): when the application does not drain the queue the dispatcher stops routing acks and replies to every other caller")
+						}
 					}
 				}
 			}
